@@ -42,7 +42,7 @@ func run(r *vk.Run) {
 		sizes = append(sizes, n)
 	}
 	sizes = append(sizes, 999, 1000, 1001)
-	reps := r.Pick(2, 120)
+	reps := r.Pick(2, 200)
 	szRng := r.Rand("extra-sizes")
 	idx := 0
 	for rep := 0; rep < reps; rep++ {
